@@ -24,6 +24,7 @@ mod x01;
 mod x02;
 mod x03;
 mod x04;
+mod x05;
 
 fn main() {
     common::silence_panics();
@@ -71,6 +72,7 @@ fn main() {
                 "C01" => c01::record(seed, n, out),
                 "X02" => x02::record(seed, n, out),
                 "X03" => x03::record(seed, n, out),
+                "X05" => x05::record(seed, n, out),
                 "C03" => { c03::record(&args[6], &args[7], seed, n, out); std::process::exit(0) }
                 "C04" => c04::record(seed, n, out, args.get(6).and_then(|s| s.parse().ok()).unwrap_or(300)),
                 "C05" => c05::record(seed, n, out, args.get(6).and_then(|s| s.parse().ok()).unwrap_or(12)),
